@@ -312,7 +312,10 @@ class DeepCopy(_Rebuild):
         st.check("P5:deep-copying-a-state-never-raises", z3.BoolVal(False) if rejected else z3.BoolVal(self.ctor_exc is not None))
 
 
+# "deriving an updated copy re-validates and replaces exactly the named attributes", "copy and deep copy yield equal instances":
+# every derived instance goes through the attribute validators again, so their acceptance = conformance and faithful-conversion
+# clauses (C05) carry C04 as well - all of them are re-exported, not only the immutability clauses named C04-*
 C04P = ("C04-",)
 CONTRACTS = [SetAttr(), DelAttr(), Eq(), Replace(), Updated(), Copy(), DeepCopy()] + \
-            [variant(c, "C04", C04P) for c in (SequenceV, TupleVarV, TupleFixedV, SetV, MappingV, UnionV)] + \
+            [variant(c, "C04", ("",)) for c in (SequenceV, TupleVarV, TupleFixedV, SetV, MappingV, UnionV)] + \
             [variant(Validated, "C04", ("",))]      # defaulted attributes go through the same immutable conversion
